@@ -331,7 +331,7 @@ theorem walk_good (c : Ctx) (rec : Vtx → CallSt → Except RErr ArgMap × Call
   cases x with
   | value nm t' st' =>
     rw [walkStep_value c rec rfl]
-    have hcf : copyFrom s (some Vtx.root) (.value nm t' st') = s := rfl
+    have hcf : valCopy c s (some Vtx.root) (.value nm t' st') = s := rfl
     simp only [hcf, hpub, if_true, hget]
     rw [walkStep_arg c rec rfl]
     simp only [argStore, hass, if_true]
